@@ -57,11 +57,11 @@ type Contract struct {
 	// PointAsserts: "at +N assert expr" - proved, then assumed, just before the first instruction of source
 	// line (first line of the function + N) executes; stepping stones for long straight-line code
 	PointAsserts map[int][]*Clause
-	Implements  string
-	Opts        map[string]string
-	Src         string
-	File        string
-	Views       []*View
+	Implements   string
+	Opts         map[string]string
+	Src          string
+	File         string
+	Views        []*View
 }
 
 // View is a derived contract parameter: view name = expr (evaluated in the pre-state)
